@@ -2,8 +2,13 @@
    L1: the parser's result has the canonical form  scheme ":" P ["?" q] ["#" f]  with every part
    clean for its encode set; L3: parsing that form gives back the same record. *)
 From RU Require Import Base.Prelude Base.Utf8 Base.Utf8Facts Model.AsciiSet Gen.Tables
-  Model.PercentEncoding Model.HostT Model.UrlRecord Model.Parser
+  Model.PercentEncoding Model.HostT Model.UrlRecord Model.Parser Model.WF
   Proofs.ListN Proofs.C14_Set Proofs.C14_Enc Proofs.C14_Views Proofs.C02_Enc Proofs.C02_Parts.
+
+Lemma utf8_lossy_ascii t : ascii t -> utf8_lossy t = t.
+Proof.
+  intros H. rewrite <- (utf8_encode_ascii t H) at 1. apply utf8_lossy_encode. apply ascii_usv. exact H.
+Qed.
 
 (* ---------- list helpers ---------- *)
 Lemma nskipn_app_len a b : nskipn (nlen a) (a ++ b) = b.
@@ -142,6 +147,120 @@ Proof.
   destruct (list_eqb sch s_wss) eqn:E4; [discriminate|].
   destruct (list_eqb sch s_ftp) eqn:E5; [discriminate|].
   destruct (list_eqb sch s_file) eqn:E6; [discriminate|]. reflexivity.
+Qed.
+
+(* the class is inside the cannot-be-a-base class, and satisfies the structural invariant *)
+Lemma opaque_url_cbb sch P q f : opaque_ok sch P q f -> cannot_be_a_base (opaque_url sch P q f) = Some true.
+Proof.
+  intros K. destruct K. unfold cannot_be_a_base, u_slice_from, opaque_url. cbn [ser scheme_end].
+  assert (nlen sch + 1 = nlen (sch ++ [58])) as E by (rewrite nlen_app; reflexivity). rewrite E.
+  unfold opaque_ser, opaque_pre. rewrite <- !app_assoc.
+  rewrite slice_from_o_some by (rewrite !nlen_app; lia).
+  rewrite (app_assoc sch [58]). rewrite nskipn_app_len. cbn [bindo]. f_equal.
+  destruct P as [|c r].
+  - cbn [app]. unfold qf_text. destruct q; destruct f; reflexivity.
+  - cbn [app]. cbn [starts_with] in *. rewrite ok_Ph0. reflexivity.
+Qed.
+
+Lemma nskipn_app_add a b k : nskipn (nlen a + k) (a ++ b) = nskipn k b.
+Proof. rewrite N.add_comm, <- nskipn_nskipn, nskipn_app_len. reflexivity. Qed.
+
+Lemma byte_eqb_app a c b : byte_eqb (a ++ c :: b) (nlen a) c = true.
+Proof.
+  unfold byte_eqb, nnth, nlen. rewrite Nat2N.id. rewrite nth_error_app2 by lia.
+  rewrite Nat.sub_diag. cbn [nth_error]. apply N.eqb_refl.
+Qed.
+
+Lemma scheme_out_char_scheme_char c : scheme_out_char c = true -> scheme_char c = true.
+Proof. unfold scheme_out_char, scheme_char, is_alnum, is_alpha, is_lower, is_upper, is_digit. intros H. lia. Qed.
+
+Lemma forallb_impl {A} (f g : A -> bool) l : (forall x, f x = true -> g x = true) -> forallb f l = true -> forallb g l = true.
+Proof. intros H. rewrite !forallb_forall. intros Hf x Hx. apply H. apply Hf. exact Hx. Qed.
+
+(* L1 for the class, structural part: the canonical form satisfies wf_b *)
+Lemma opaque_url_wf sch P q f : opaque_ok sch P q f -> wf_b (opaque_url sch P q f) = true.
+Proof.
+  intros K. pose proof (opaque_url_cbb _ _ _ _ K) as Hcbb. destruct K.
+  unfold scheme_canon in ok_sch0. apply andb_true_iff in ok_sch0. destruct ok_sch0 as [Hhead Hall].
+  set (A := sch ++ [58]).
+  assert (nlen A = nlen sch + 1) as EA by (unfold A; rewrite nlen_app; reflexivity).
+  assert (starts_with [47] (P ++ qf_text q f) = false) as Hno.
+  { destruct P as [|c r]; [|cbn [app starts_with] in *; rewrite ok_Ph0; reflexivity].
+    cbn [app]. unfold qf_text. destruct q; destruct f; reflexivity. }
+  unfold wf_b. apply andb_true_iff. split; [apply andb_true_iff; split|].
+  - (* scheme *)
+    unfold wf_scheme, opaque_url. cbn [ser scheme_end]. unfold opaque_ser, opaque_pre.
+    repeat (apply andb_true_iff; split).
+    + destruct sch; [discriminate|]. unfold nlen. cbn [length]. lia.
+    + destruct sch as [|c s]; [discriminate|]. cbn [app]. unfold is_alpha. rewrite Hhead. apply orb_true_r.
+    + rewrite <- !app_assoc. rewrite nfirstn_app_len.
+      apply (forallb_impl scheme_out_char); [exact scheme_out_char_scheme_char | exact Hall].
+    + rewrite <- !app_assoc. cbn [app]. apply byte_eqb_app.
+  - (* no authority *)
+    assert (has_authority_b (opaque_url sch P q f) = false) as Hna.
+    { unfold has_authority_b, opaque_url. cbn [ser scheme_end]. unfold opaque_ser, opaque_pre.
+      rewrite <- !app_assoc. rewrite nskipn_app_len. unfold s_css. cbn [app starts_with].
+      replace (58 =? 58) with true by reflexivity. cbn [andb].
+      apply starts_with_ss_of_s. exact Hno. }
+    rewrite Hna. unfold wf_no_authority, opaque_url.
+    cbn [ser scheme_end username_end host_start host_end hosti port path_start]. fold A.
+    unfold opaque_ser, opaque_pre. fold A. rewrite !nlen_app.
+    cbn [hi_eqb]. replace (nlen A =? nlen sch + 1) with true by lia.
+    replace (nlen A <=? nlen A + nlen P + nlen (qf_text q f)) with true by lia. reflexivity.
+  - (* query and fragment *)
+    unfold wf_query_fragment, opaque_url.
+    cbn [ser path_start query_start fragment_start]. fold A. unfold opaque_ser, opaque_pre. fold A.
+    assert (forallb (fun c => negb ((c =? 63) || (c =? 35))) P = true) as HP.
+    { apply (forallb_impl not_tnl_qh); [|exact ok_Pq0]. intros c Hc. unfold not_tnl_qh, is_qh in Hc.
+      apply andb_true_iff in Hc. tauto. }
+    destruct q as [x|]; destruct f as [y|];
+      cbn [qf_qs qf_fs qf_text qf_qtext qf_ftext opt_clean] in *; unfold qf_text; cbn [qf_qtext qf_ftext].
+    + assert (forallb (fun c => negb (c =? 35)) x = true) as Hx.
+      { apply (forallb_impl not_tnl_hash); [|exact (clean_forallb _ _ x kept_QUERY_sat ok_q0)].
+        intros c Hc. unfold not_tnl_hash in Hc. apply andb_true_iff in Hc. tauto. }
+      repeat (apply andb_true_iff; split).
+      * rewrite nlen_app. lia.
+      * cbn [app]. apply byte_eqb_app.
+      * rewrite !nlen_app. lia.
+      * replace ((A ++ P) ++ (63 :: x) ++ 35 :: y) with (((A ++ P) ++ 63 :: x) ++ 35 :: y) by (rewrite <- !app_assoc; reflexivity).
+        rewrite <- nlen_app. apply byte_eqb_app.
+      * rewrite nlen_cons. lia.
+      * rewrite nlen_app. replace (nlen A + nlen P - nlen A) with (nlen P) by lia.
+        rewrite <- !app_assoc. rewrite nskipn_app_len. rewrite nfirstn_app_len. exact HP.
+      * rewrite nlen_cons. replace (nlen (A ++ P) + (1 + nlen x) - (nlen (A ++ P) + 1)) with (nlen x) by lia.
+        rewrite nskipn_app_add. cbn [app]. change (nskipn 1 (63 :: x ++ 35 :: y)) with (x ++ 35 :: y).
+        rewrite nfirstn_app_len. exact Hx.
+    + assert (forallb (fun c => negb (c =? 35)) x = true) as Hx.
+      { apply (forallb_impl not_tnl_hash); [|exact (clean_forallb _ _ x kept_QUERY_sat ok_q0)].
+        intros c Hc. unfold not_tnl_hash in Hc. apply andb_true_iff in Hc. tauto. }
+      rewrite app_nil_r. repeat (apply andb_true_iff; split); try reflexivity.
+      * rewrite nlen_app. lia.
+      * apply byte_eqb_app.
+      * rewrite nlen_app. replace (nlen A + nlen P - nlen A) with (nlen P) by lia.
+        rewrite <- !app_assoc. rewrite nskipn_app_len. rewrite nfirstn_app_len. exact HP.
+      * rewrite nskipn_app_add. change (nskipn 1 (63 :: x)) with x. exact Hx.
+    + cbn [app]. rewrite N.add_0_r. repeat (apply andb_true_iff; split); try reflexivity.
+      * rewrite nlen_app. lia.
+      * apply byte_eqb_app.
+      * rewrite nlen_app. replace (nlen A + nlen P - nlen A) with (nlen P) by lia.
+        rewrite <- !app_assoc. rewrite nskipn_app_len. rewrite nfirstn_app_len. exact HP.
+    + cbn [app]. rewrite app_nil_r. repeat (apply andb_true_iff; split); try reflexivity.
+      rewrite nlen_app. replace (nlen A + nlen P - nlen A) with (nlen P) by lia.
+      rewrite nskipn_app_len. rewrite nfirstn_all by lia. exact HP.
+Qed.
+
+Lemma opaque_ser_ascii sch P q f : opaque_ok sch P q f -> ascii (opaque_ser sch P q f).
+Proof.
+  intros K. destruct K. unfold opaque_ser, opaque_pre, qf_text. repeat (apply ascii_app; split).
+  - unfold scheme_canon in ok_sch0. apply andb_true_iff in ok_sch0. destruct ok_sch0 as [_ Hf].
+    apply Forall_forall. intros c Hc. rewrite forallb_forall in Hf. specialize (Hf c Hc).
+    unfold scheme_out_char, is_lower, is_digit, is_ascii in *. lia.
+  - constructor; [unfold is_ascii; lia | constructor].
+  - apply (clean_ascii T_CONTROLS). exact ok_P0.
+  - destruct q as [x|]; [|constructor]. cbn [qf_qtext]. constructor; [unfold is_ascii; lia|].
+    apply (clean_ascii T_QUERY). exact ok_q0.
+  - destruct f as [y|]; [|constructor]. cbn [qf_ftext]. constructor; [unfold is_ascii; lia|].
+    apply (clean_ascii T_FRAGMENT). exact ok_f0.
 Qed.
 
 Section Opaque.
@@ -292,6 +411,16 @@ Proof.
   intros Hu Hs Hns H47 Hp.
   destruct (parse_opaque_out input sch rem u Hu Hs Hns H47 Hp) as (P & q & f & K & ->).
   exact (reparse_opaque_form sch P q f K).
+Qed.
+
+Theorem opaque_result_ascii input sch rem u : usv_list input ->
+  parse_scheme CUrlParser (input_new_trim_c0 input) = Some (sch, rem) ->
+  scheme_type_of sch = STNotSpecial -> inp_split_prefix_char 47 rem = None ->
+  parse_url dbg hp hpo hd ovr None input = POk u -> ascii (ser u).
+Proof.
+  intros Hu Hs Hns H47 Hp.
+  destruct (parse_opaque_out input sch rem u Hu Hs Hns H47 Hp) as (P & q & f & K & ->).
+  exact (opaque_ser_ascii sch P q f K).
 Qed.
 
 End Opaque.
